@@ -240,7 +240,8 @@ class TenantWorld(object):
         upfront = [g for g in order if rng.random() < 0.7]
         for g in upfront:
             events.append({'op': 'build', 'g': g})
-        attempts = {g: 0 for g in order}
+        # students are somewhere along their timeline when the run starts
+        attempts = {g: rng.choice([0, 0, 0, 1, 2, 3, 4, 5, 6, 9, 30]) for g in order}
         cur = P.pick(rng, order)
         reg_on = rates.get('reg', 0) > 0
         for _ in range(n_ev):
@@ -295,7 +296,7 @@ class TenantWorld(object):
                     'minimum_credit': rng.choice([0, 0.1, 0.2, 0.5, 1])}}}
             if r < 0.85:
                 return {'__credit__': {'cls': 'GeometricCredit', 'cfg': {
-                    'factor': rng.choice([0, 0.1, 0.5, 0.75, 0.9, 1])}}}
+                    'factor': rng.choice([0, 0.01, 0.1, 0.1, 0.3, 0.5, 0.75, 0.9, 1])}}}
             return {'__credit__': {'cls': 'ReciprocalCredit', 'cfg': {}}}
         if rng.random() < 0.2:
             table = P.pick(rng, [[1, 0.5, 0.25], [1, 1, 0], [1.0, 0.75, 0.5, 0.25, 0], [1, 0.33333]])
